@@ -34,7 +34,9 @@ check("C06", "exploration",
       "Class-generated well-/ill-formed payloads cut into fragments at arbitrary byte positions and delivered through the "
       "simulated transport, validation on/off, text and close reasons; oracle = CPython strict decoder on the reassembled "
       "payload; plus bounded-exhaustive agreement of the validator with the strict decoder (all strings <=2 / <=3 bytes). "
-      "Does NOT decide 'all byte strings via the automaton' - sampling and bounded exhaustion only.", TRUST,
+      "Also run with a stand-in for the optional wsaccel package (the library's accelerator branch). "
+      "Does NOT decide 'all byte strings via the automaton' - sampling and bounded exhaustion only.",
+      TRUST + " The wsaccel stand-in follows the package's documented validate() contract; the real package is absent.",
       "deterministic simulation: class-based seeded inputs x fragmentations through the simulated transport; bounded-exhaustive validator comparison",
       "DESIGN.md section 6 C06")
 check("C07", "exploration",
@@ -77,7 +79,8 @@ check("C19", "exploration",
       "suffix exists) x CIDR blocks of every prefix length x proxy reply statuses; an independent decision function "
       "is compared with the address the simulated network saw dialled and with what the simulated proxy received "
       "(CONNECT line, Host, Basic credentials, nothing after a non-200, TLS/GET inside the tunnel).",
-      TRUST + " SOCKS proxies not exercised (python_socks absent).",
+      TRUST + " SOCKS: a stand-in for the absent python_socks package records which proxy the library asks it to dial and "
+      "for which destination; the SOCKS negotiation itself is not modelled.",
       "deterministic simulation: exhaustive small-alphabet configuration sweep observed at the simulated network, independent decision oracle",
       "DESIGN.md section 6 C19")
 check("C20", "exploration",
